@@ -35,7 +35,12 @@ func (d *Driver) EstablishPeriodicSubscription(
 
 	m := d.buildPayload(establishElem)
 
-	r, err := d.sendRPC(m, &OperationOptions{})
+	op, err := NewOperation()
+	if err != nil {
+		return nil, err
+	}
+
+	r, err := d.sendRPC(m, op)
 	if err != nil {
 		return nil, err
 	}
